@@ -2,6 +2,8 @@ import TSSVerif.Model.PsAlgebra
 import TSSVerif.Props.C18
 import TSSVerif.Props.C05
 import TSSVerif.Proofs.SubsetCheck
+import TSSVerif.Gen.Stmts
+import TSSVerif.Model.StmtsExpected
 /-!
 # C01 — threshold key agreement and signing correctness for all n, t, subsets, schedules
 
@@ -113,5 +115,12 @@ theorem public_material_identical {S : TSSVerif.Model.Dkg.Session} {σ : TSSVeri
     {a b : TSSVerif.Model.Dkg.Id} (ha : S.honest a = true) (hb : S.honest b = true) {ra rb : List (Option TSSVerif.Model.Bytes)}
     (hra : (σ a).result = some ra) (hrb : (σ b).result = some rb) : ra = rb :=
   TSSVerif.Props.C05.honest_completions_agree h hint ha hb hra hrb
+
+
+/-- **The source the model was transcribed from is the current source**: the statements of `OnMsg`, `KeyGen`, the three wait loops, `combineShares`, `commitPhase`, `revealPhase`, `shareDistribution`, `validateCommitments`, `assembleThresholdPublicKey`, `Init` of both built-in backends, regenerated from
+`/repo` on this run, are the committed ones (logging left out). A change of any of them — harmless or not — fails here
+first; the differential and monitored runs of this property are then the search for an input on which it fails. -/
+theorem source_as_modelled : TSSVerif.Gen.Stmts.dkg = TSSVerif.Model.StmtsExpected.dkg := by
+  decide +kernel
 
 end TSSVerif.Props.C01
